@@ -490,6 +490,15 @@ def _mirsym():
         bounds="table buffers of 0-3 columns over {I64, Dense, Sparse, String, Mixed, Empty}; everything else in ingest_efficient (locks, table creation, WAL, Table state) havoc'd; API replay mandatory for counterexamples",
         spec=sib.NewColumnWiringSpec(), stubs=["Table::new_column_names -> end of slice (the iterator it receives is drained and recorded)", "HashMap<String,V> -> association list", "all other callees of the slice -> havoc"])
 
+    for pid, tag in (("C14", "C14.e"), ("C08", "C08.e")):
+        add(f"{tag}/wal_segment_roundtrip", pid, "mirsym", Q,
+            "disk_store::wal_segment::WalSegment::serialize then WalSegment::deserialize (one write-ahead log segment per acknowledged ingestion request): the segment id and every table / column / value of the request come back",
+            ["disk_store::wal_segment::WalSegment::{serialize,deserialize}", "locustdb_serialization::event_buffer::EventBuffer::{serialize_builder,deserialize_reader}"],
+            bounds="segment id symbolic; 4 (quick) / 7 (thorough) of the buffer shapes of C14.c/event_buffer_roundtrip; capnp modelled from schemas/wal_segment.capnp",
+            spec=swc.WalSegmentCodecSpec(),
+            stubs=["capnp generated accessors -> record model driven by locustdb-serialization/schemas/wal_segment.capnp", "capnp::serialize_packed::{write_message,read_message} -> identity on the record tree", "HashMap<String,V> -> association list"],
+            assumptions=["capnpc-generated accessors and the capnp runtime implement the record semantics of vlib/mirsym/capnp_model.py; serialize_packed is lossless"])
+
 
 _mirsym()
 
